@@ -119,7 +119,7 @@ pub fn run(e: &'static Engine) {
     }
     e.par(jobs);
     // generated part
-    let total: u32 = e.tier.pick(1600, 48000);
+    let total: u32 = e.tier.pick(9600, 96000);
     let shards = e.tier.pick(16u32, 64);
     let mut jobs: Vec<Job> = Vec::new();
     for _ in 0..shards {
@@ -133,7 +133,7 @@ pub fn run(e: &'static Engine) {
     }
     e.par(jobs);
     // automatic-mask sweep over small/medium versions (penalty ties), padded forced versions, steered matrices
-    let total: u32 = e.tier.pick(16000, 240000);
+    let total: u32 = e.tier.pick(64000, 480000);
     let shards = e.tier.pick(32u32, 96);
     let mut jobs: Vec<Job> = Vec::new();
     for _ in 0..shards {
